@@ -210,3 +210,70 @@ def prove_with_replay(name, cfg, it, tr, flat_in, assumptions, goal_builder, key
         o.replayed = None
         o.detail = f"replay failed: {type(e).__name__}: {e} {traceback.format_exc()[-600:]}"
     return o
+
+
+# ---------------------------------------------------------------------------------------------------
+class UFCalls(Calls):
+    """Oracle callbacks as uninterpreted functions of their arguments (a deterministic but arbitrary user step function).
+    `override(tag, j, args) -> term or None` lets a harness pin some outputs (e.g. output := E_node(seq))."""
+
+    def __init__(self, override=None):
+        super().__init__()
+        self.override = override
+        self._fn = {}
+
+    def handler(self, interp, eqn, args):
+        tag = eqn.params["callback"].callback_func.__name__
+        flat_args, sorts = [], []
+        for a in args:
+            for x in a.flat():
+                k = a.kind
+                flat_args.append(_zval(interp.alg, x, k))
+                sorts.append(_sort_of_kind(k))
+        outs = []
+        for j, av in enumerate(eqn.params["result_avals"]):
+            arr = jx.obj_array(tuple(av.shape))
+            kind = jx.kind_of(av.dtype)
+            for ci, idx in enumerate(np.ndindex(*av.shape)):
+                t = self.override(tag, j, ci, args) if self.override else None
+                if t is None:
+                    key = (tag, j, ci, tuple(str(s) for s in sorts))
+                    if key not in self._fn:
+                        self._fn[key] = z3.Function(f"F_{tag}_{j}_{ci}", *sorts, _sort_of_kind(kind))
+                    t = self._fn[key](*flat_args)
+                arr[idx] = t
+            outs.append(jx.SA(arr, av.dtype))
+        self.calls.append(dict(tag=tag, guard=interp.guard(), args=list(args), outs=outs))
+        return outs
+
+
+def sel(alg, sa, idx, lo=0):
+    """element (sub-array along axis 0) of sa at symbolic index idx (assumed in [0, len))."""
+    n = sa.shape[0]
+    if not jx.isz(idx):
+        return sa[int(idx)]
+    out = sa[n - 1].v
+    for r in range(n - 2, -1, -1):
+        cur = sa[r].v
+        out = jx.map2(lambda a, b: alg.ite(idx == r, a, b, sa.kind), cur, out)
+    return jx.SA(out, sa.dtype)
+
+
+def slot_order(g):
+    """non-supervisor slots per kind in the order the partition runner executes them, with an execution 'round' index
+    (generation index, or scan iteration when the generations are uniform)."""
+    from rex.utils import check_generations_uniformity
+
+    tm = g.timings
+    sup_slot = g._supervisor_slot
+    gens = tm.to_generation()
+    uniform = check_generations_uniformity(gens[:-1])
+    per_kind = {}
+    for gi, gen in enumerate(gens):
+        for sname, s in gen.items():
+            if sname == sup_slot:
+                continue
+            per_kind.setdefault(s.kind, []).append((sname, gi))
+    if uniform:
+        per_kind = {k: [(sn, i) for i, (sn, _) in enumerate(sorted(v, key=lambda x: x[1]))] for k, v in per_kind.items()}
+    return per_kind, uniform, len(gens) - 1
